@@ -810,6 +810,10 @@ func judge(c Case) {
 		old := user.VerifSetMojangKey(&fam.other.PublicKey)
 		judgeNeighbours(c.SigLen)
 		user.VerifSetMojangKey(old)
+	case "sig-split":
+		old := user.VerifSetMojangKey(&fam.other.PublicKey)
+		judgeSplits(c.SigLen)
+		user.VerifSetMojangKey(old)
 	case "sig-side-neighbour":
 		old := user.VerifSetMojangKey(&fam.other.PublicKey)
 		judgeSigNeighbours(c.SigLen)
